@@ -188,7 +188,10 @@ def inject(case):
     try:
         mon.arm()
         if not os.path.exists(rf) and not os.path.exists(rf + ".old"):
-            res["no_checkpoint"] = True   # interrupted before the first iteration boundary (INS) — nothing to resume, a fresh start is the documented outcome
+            res["no_checkpoint"] = True
+            # only the importance sampler interrupted before its first iteration boundary may legitimately have nothing to resume from
+            if not (ins and snap.get("it", 0) == 0):
+                problems.append(("handler-left-no-checkpoint", dict(sampler=case["sampler"], interrupted_at_iteration=snap.get("it"))))
         fs2 = FlowSampler(model2, output=out, resume=True, importance_nested_sampler=ins, signal_handling=False, **kw)
         ns = fs2.ns
         if ins:
@@ -337,6 +340,11 @@ def main():
             kwargs = {"analytic_priors": True}
         else:
             kwargs = {}
+        # configuration variants of the checkpoint schedule: the handler must leave a resumable state whatever the periodic schedule is
+        if t["sampler"] == "std" and k % 4 == 1 and t["func"] not in core:
+            kwargs = dict(kwargs, checkpointing=False)                                    # periodic checkpointing disabled
+        elif t["sampler"] == "ins" and k % 4 == 2:
+            kwargs = dict(kwargs, checkpoint_on_iteration=False, checkpoint_interval=0.01)  # time-based schedule whose interval has always elapsed
         for ph in sel:
             cases.append(dict(t, min_it=ph, kwargs=kwargs, outdir=os.path.join(chk.scratch, f"inj-{t['sampler']}-{t['func']}-{t['rel']}-{ph}"), _timeout=400,
                               signum=[15, 2, 14][(k + ph) % 3]))
